@@ -40,12 +40,14 @@ type Space struct {
 	Query   bool                `json:"query"`
 	Depth   int                 `json:"depth"`
 	// SQLCfg names the query configuration of the SQLStore ("" = default, "tiny" =
-	// one item per page and per IN-batch, "two" = two); NoMig re-instantiates the
+	// one item per page and per IN-batch, "batch1" = pages of two, batches of one);
+	// NoIL keeps the space out of the transaction-boundary pass; NoMig re-instantiates the
 	// KVStore with WithNoMigration(true) on reopen; Query2 also observes QueryPayments
 	// with IncludeIncomplete=false and one-payment pages (Reversed / IndexOffset).
 	SQLCfg string `json:"sql_cfg,omitempty"`
 	NoMig  bool   `json:"kv_no_migration,omitempty"`
 	Query2 bool   `json:"query2,omitempty"`
+	NoIL   bool   `json:"no_interleave,omitempty"`
 }
 
 func (s Space) worldOpts() worldOpts {
@@ -135,16 +137,38 @@ func spaces(thorough bool) []Space {
 				RegIDs: map[string][]uint64{"h0": ids(1, 2), "h1": ids(3)}, ResIDs: map[string][]uint64{"h0": ids(1, 2), "h1": ids(3)},
 				Amts: []string{"H"}, Kinds: []string{"m"}, Reasons: []int{0},
 				DelAll: allDel, Reopen: true, Query: true, Depth: 5,
-				SQLCfg: "tiny", NoMig: true, Query2: true,
+				SQLCfg: "tiny", NoMig: true, Query2: true, NoIL: true,
+			},
+			{ // pages of two / IN-batches of one: the page is exactly full with the two
+				// payments, their shared data is loaded in two batches
+				Name:   "pair-batch1-page2",
+				RegIDs: map[string][]uint64{"h0": ids(1, 2), "h1": ids(3)}, ResIDs: map[string][]uint64{"h0": ids(1), "h1": ids(3)},
+				Amts: []string{"H"}, Kinds: []string{"m"}, Reasons: []int{0},
+				DelAll: [][2]int{{0, 0}, {1, 1}}, Query: true, Depth: 4,
+				SQLCfg: "batch1", Query2: true, NoIL: true,
 			},
 		}
 	}
 	// ordered so that the largest space runs last (a deadline then caps only it)
 	return []Space{
 		{
+			Name:   "pair-batch1-page2",
+			RegIDs: map[string][]uint64{"h0": ids(1, 2), "h1": ids(3)}, ResIDs: map[string][]uint64{"h0": ids(1, 2), "h1": ids(3)},
+			Amts: []string{"H"}, Kinds: []string{"m"}, Reasons: []int{0},
+			DelAll: allDel, Reopen: true, Query: true, Depth: 6,
+			SQLCfg: "batch1", NoMig: true, Query2: true, NoIL: true,
+		},
+		{
+			Name:   "pair-tiny-pages",
+			RegIDs: map[string][]uint64{"h0": ids(1, 2), "h1": ids(3)}, ResIDs: map[string][]uint64{"h0": ids(1, 2), "h1": ids(3)},
+			Amts: []string{"H", "V"}, Kinds: []string{"m"}, Reasons: []int{0},
+			DelAll: allDel, Reopen: true, Query: true, Depth: 6,
+			SQLCfg: "tiny", NoMig: true, Query2: true, NoIL: true,
+		},
+		{
 			Name:   "single-records",
 			RegIDs: map[string][]uint64{"h0": ids(1, 2, 3)}, ResIDs: map[string][]uint64{"h0": ids(1, 2, 3)},
-			Amts: []string{"H", "J"}, Kinds: []string{"n", "m", "t", "a", "b", "c", "z", "x"}, Reasons: []int{1},
+			Amts: []string{"H", "J"}, Kinds: []string{"n", "m", "t", "a", "b", "c", "z", "x"}, Reasons: []int{1, 5},
 			Depth: 6,
 		},
 		{
@@ -270,13 +294,43 @@ func runSpace(run *evid.Run, sp Space, st *Stats, pool *sqlPool, deadline time.T
 			if w.dead != "" {
 				return
 			}
-			explored.add(sp.Name, hist, 4)
+			if !sp.NoIL {
+				explored.add(sp.Name, hist, 4)
+			}
 			for h := range w.cur[0].pay {
 				if w.cur[0].pay[h].Exists && len(w.cur[0].pay[h].HTLCs) > 0 {
 					mu.Lock()
 					ntri++
 					mu.Unlock()
-					return
+					break
+				}
+			}
+			// Restart probe. A re-instantiated store reports the same state, so the
+			// canonical key cannot tell a cold store object from a warm one and the
+			// search never continues *behind* a `reopen`. The only in-memory state of
+			// the stores is the KVStore's payment-sequence allocator, and it is
+			// consumed by InitPayment only; so from every distinct state the suffix
+			// `reopen; init:hA; reopen; init:hB` (hash order alternating with the
+			// depth) is executed on the live instance and judged by the same clauses:
+			// every InitPayment outcome x every state x cold store, across one and
+			// two restarts. (The instance is discarded after OnState.)
+			if sp.Reopen {
+				hs := sp.hashesSorted()
+				if len(hist)%2 == 1 {
+					for i, j := 0, len(hs)-1; i < j; i, j = i+1, j-1 {
+						hs[i], hs[j] = hs[j], hs[i]
+					}
+				}
+				for _, h := range hs {
+					if w.dead != "" {
+						break
+					}
+					_ = w.Do("reopen")
+					if w.dead != "" {
+						break
+					}
+					_ = w.Do("init:" + h)
+					st.clause("restart-probe")
 				}
 			}
 		},
@@ -402,11 +456,14 @@ func TestC16(t *testing.T) {
 	// determinism re-check: the smallest completed space again, on *fresh* sqlite
 	// databases (no pool): identical state and transition counts are required.
 	recheck := map[string]any{"done": false}
+	tPhase := time.Now()
 	if run.Violations() == 0 && len(sps) > 0 {
 		small := sps[len(sps)-1]
-		for _, c := range sps {
-			if c.Name == "single-records" {
-				small = c
+		for _, name := range []string{"single-records", "pair-batch1-page2"} {
+			for _, c := range sps {
+				if c.Name == name {
+					small = c
+				}
 			}
 		}
 		if d := envInt("C16_RECHECK_DEPTH", 0); d > 0 {
@@ -437,8 +494,12 @@ func TestC16(t *testing.T) {
 	}
 	theGate.mu.Unlock()
 
+	fmt.Printf("INFO determinism re-check: %.1fs wall\n", time.Since(tPhase).Seconds())
+	tPhase = time.Now()
+
 	// transaction-boundary interleavings of the multi-transaction operations
 	il := runInterleavings(run, sps, st, pool, time.Now().Add(ilBudget), workers)
+	fmt.Printf("INFO tx-boundary pass: %d cases on %d base states, %d store instances, %.1fs wall\n", il.Cases, il.StatesUsed, il.Executions, time.Since(tPhase).Seconds())
 	if !il.Exhaustive {
 		caps = append(caps, "tx-boundary pass: "+il.Cap)
 	}
@@ -506,7 +567,8 @@ func TestC16(t *testing.T) {
 		"tx_boundary_interleavings":      il.Coverage(),
 	}
 	run.Assumptions = append(run.Assumptions,
-		"universe: 2 payment hashes, value 1000 msat, attempt ids 1-4, amounts {V, V/2, V/2+1}, final-hop records {none, MPP consistent/total-mismatch/address-mismatch, blinded consistent/total-mismatch/missing-total/with-MPP}; histories up to the per-space depth bound",
+		"universe: 2 payment hashes with different creation info (h0: 1000 msat with payment request; h1: 2^32+1000 msat, blank payment request, first-hop custom records), a re-initiation carries another amount than the record it replaces (1000<->600, 2^32+1000<->1000); attempt ids {0, 2, 2^32+2, 4}; attempt amounts {V, V/2, V/2+1} of the payment's current amount V; two-hop routes with distinct per-hop fields, final-hop records {none, MPP consistent/total-mismatch/address-mismatch, blinded consistent/total-mismatch/missing-total/with-MPP}; failure reasons {0}, {1,5}; histories up to the per-space depth bound",
+		"store options: SQL query configuration {default (pages 100 / batches 250), pages 1 / batches 1, pages 2 / batches 1} (the non-default ones in their own two-payment spaces), KVStore re-instantiated with and without WithNoMigration; QueryPayments observed with {IncludeIncomplete, CountTotal, MaxPayments 100} everywhere and with {complete only}, {Reversed, MaxPayments 1}, {IndexOffset=first, MaxPayments 1} in the two-payment option spaces; not explored: legacy duplicate-payment buckets of the KV store, creation-date filters, Postgres, etcd/sqlite kvdb backends, exhaustion of a 1000-number sequence block",
 		"SQL backend = sqlite (Postgres not available offline); KV backend = bbolt behind crashdb (kvdb.Batch degrades to Update; the free-running target uses raw bbolt and the real Batch path)",
 		"operations that are a single database transaction (measured, see tx_per_operation) are atomic, so their interleavings are the enumerated sequences; multi-transaction operations are interleaved at transaction granularity; concurrent RegisterAttempt on one hash is a documented caller obligation and outside the contract",
 		"states in which a violation was reported are not expanded further",
